@@ -111,16 +111,17 @@ Section WithCheckpointFn.
     end.
 End WithCheckpointFn.
 
-(* DeleteRange: LastIndex is read first; after a successful underlying delete the
-   running sum restarts only if the deleted range reached that last index (tail
+(* DeleteRange: LastIndex is read first ([lf] = that read returned an error);
+   after a successful underlying delete the running sum restarts if the read
+   failed or the deleted range reached that last index (tail
    truncation -- issued by raft from the appending goroutine).  Head truncations
    (log compaction, issued concurrently from raft's snapshot goroutine) leave
    (checksum, sumStartIdx) alone. *)
-Definition vdelete_range (v : vstate) (s : sstore) (mn mx : N) : bool * vstate * sstore :=
+Definition vdelete_range (lf : bool) (v : vstate) (s : sstore) (mn mx : N) : bool * vstate * sstore :=
   let last := last_index s in
   match delete_range s mn mx with
   | None => (false, v, s)
-  | Some s' => (true, if last <=? mx then v_init else v, s')
+  | Some s' => (true, if lf || (last <=? mx) then v_init else v, s')
   end.
 
 (* the read loop of verify: GetLog idx .. for n consecutive indexes *)
